@@ -26,6 +26,7 @@ func init() {
 			{From: "C07.e", Match: "ranges-strictly-increasing", As: "C03.g", Why: "a duplicate pending range can never be applied and freezes the subjective head every incoming header is verified against"},
 			{From: "C07.a", Match: "target-only-above-store", As: "C03.i", Why: "a pending range at or below the store head is never cleaned out, so the subjective head stops advancing and a stale header at a stored height is no longer refused as known"},
 			{From: "C02.b", As: "C03.j", Why: "the Syncer stores what its getter hands over as a verified range: VerifyRange has to verify every element against its own predecessor (and against nothing else) for 'verified range' to mean a chain"},
+			{From: "C02.e", As: "C03.k", Why: "every header of a range the Syncer stores counts as verified only because VerifyRange puts each element — not just the first — through Verify (chain id, time, the type's own checks) before it joins the verified prefix"},
 			{From: "C01.a", As: "C03.h", Why: "the acceptance test of the syncer is header.Verify: a header at or below the subjective head must be refused as known before it can replace a stored one"},
 		},
 	})
